@@ -51,3 +51,22 @@ CHECKS["C03"] = {
     "assumptions": ["values are short distinguishable tags; value content is irrelevant to econf_mergeFiles",
                     "lists longer than the bound are not covered"],
 }
+
+CHECKS["C02"] = {
+    "engine": "E1",
+    "technique": "bounded exhaustive enumeration of conventional files (all line sequences up to N lines with up to D decorations) parsed by the real code and compared with the by-construction meaning",
+    "level_text": "every file of the conventional grammar (DESIGN 5.1) over the stated line alphabet with <= N lines and <= D decorations, for all 7 delimiter "
+                  "sets x 3 comment sets, is parsed by the real econf_readFile and its listing/values compared with the meaning each generated line carries",
+    "level_note": "bounded: N<=3 lines, D<=1 decoration (quick); N<=4, D<=2 under a deadline (thorough); tokens from a small alphabet; trusted: generator/meaning in harness/convgen.h, ASan/UBSan",
+    "rule": "files = sequences of lines from the alphabet {entry (key x value token, unquoted/quoted), header, comment line (texts incl. comment chars, quotes, "
+            "brackets), blank line, continuation line}; decorations (cost 1 each): blanks before key / around delimiter / after value, alternative delimiter "
+            "char, trailing comment, indentation, missing final newline; deviation-bounded: all files with <= D decorations; non-trivial = has an entry and a "
+            "decoration, header, comment, continuation or quoted value; distinct by construction",
+    "deadline": {"quick": 110, "thorough": 1200},
+    "parts": [
+        {"name": "files", "harness": "c02", "variant": "asan", "quick": ["--p0", 3, "--p1", 1], "thorough": ["--p0", 4, "--p1", 2, "--p2", 1],
+         "floor": {"quick": 100000, "thorough": 1000000}},
+    ],
+    "assumptions": ["printable tokens from a fixed small alphabet stand for arbitrary printable text of the same character classes",
+                    "files longer than N lines are not covered"],
+}
